@@ -44,9 +44,7 @@ def mnemonics(tables):
             j = i
             while j < len(rows) and rows[j]["id"] == ident:
                 for f in rows[j]["fmt"]:
-                    if f == 0:
-                        fmts += ["", "i"]
-                    elif f > 0:
+                    if f >= 0:
                         fmts.append(fmtname[f])
                 j += 1
                 if j < len(rows) and rows[j]["name"]:
